@@ -69,10 +69,14 @@ def main():
     blocks, crashes = lu.run_all(exe, cases, "C11")
     for (last, nobs, rc, err) in crashes:
         c = cases[last]
-        sig = "crash:%s" % c["kind"]
+        if c["kind"] == "LP":
+            opn = "basis-inverse-queries"
+        else:
+            opn = c["ops"][nobs][0] + (c["ops"][nobs][2] if c["ops"][nobs][0] == "CHG" else "") if nobs < len(c["ops"]) else "end"
+        sig = "crash:%s:%s" % (c["kind"], opn)
         if c.get("probe"):
             sig = c["probe"] + ":" + sig
-        ck.violation(sig, "the implementation crashed or did not terminate (rc=%d; 124 = timeout) in case %d (%s) after %d observations" % (rc, last, c["family"], nobs),
+        ck.violation(sig, "the implementation crashed or did not terminate (rc=%d; 124 = timeout) in case %d (%s) after %d observations, in operation %s" % (rc, last, c["family"], nobs, opn),
                      {"kind": "crash", "case": c, "stderr": err})
     Q = lu.Queries()
     pending = []
@@ -94,7 +98,8 @@ def main():
     ck.cov["checker_queries"] = len(Q.meta)
     ck.cov["rule"] = ("one evaluation = one rational solve / multi-solve / update, or one basis-inverse row / column / solve of SoPlex, compared "
                       "exactly (==) by the extracted checker with the specification state; families: random sparse, dense, triangular, "
-                      "singleton-rich, dense bump, permuted identity with entries from small fractions to 200-bit numerators/denominators; "
+                      "singleton-rich, dense bump, permuted identity with entries from tiny integers (frequent exact cancellation) and small fractions to 200-bit "
+                      "numerators/denominators; "
                       "matrices that are regular although their rounding to doubles is singular and vice versa; exactly singular matrices; "
                       "small feasible bounded rational LPs solved in SOLVEMODE_RATIONAL, queried before and after changeElementRational; "
                       "distinct = distinct (case, operation) pairs")
